@@ -51,8 +51,9 @@ class RestoreArgParser:
         if parsed.version:
             return PrintVersionArgs(argv0=sys_argv[0])
         else:
-            path = os.path.normpath(
-                os.path.join(curdir + os.path.sep, parsed.path))
+            # not curdir + os.path.sep: with curdir '/' that gives '//', which
+            # normpath keeps and which is a prefix of no original location
+            path = os.path.normpath(os.path.join(curdir, parsed.path))
 
             return RunRestoreArgs(path=path,
                                   sort=cast(Sort, {
